@@ -281,6 +281,14 @@ func (p *Program) instrPos(in ssa.Instruction) string {
 // Func resolves "pkgpath", "Name" or "pkgpath", "(T).Name" / "(*T).Name" to
 // the SSA function. Resolution is by types object, never by text position.
 func (p *Program) Func(pkgPath, name string) *ssa.Function {
+	// unexported helpers: by what they are first, by name as the fallback
+	if fn := p.structuralFunc(pkgPath, name); fn != nil {
+		return fn
+	}
+	return p.funcByName(pkgPath, name)
+}
+
+func (p *Program) funcByName(pkgPath, name string) *ssa.Function {
 	sp := p.SSAPkg[pkgPath]
 	if sp == nil {
 		return nil
@@ -323,6 +331,13 @@ func (p *Program) FuncOf(o *types.Func) *ssa.Function { return p.byObj[o] }
 
 // NamedType looks up a named type of a module package.
 func (p *Program) NamedType(pkgPath, name string) *types.Named {
+	if n := p.structuralType(pkgPath, name); n != nil {
+		return n
+	}
+	return p.NamedTypeByName(pkgPath, name)
+}
+
+func (p *Program) NamedTypeByName(pkgPath, name string) *types.Named {
 	pk := p.Mod[pkgPath]
 	if pk == nil {
 		return nil
